@@ -138,7 +138,8 @@ def random_label_spec(rng, n, labels, typed, explicit=0.2, clone_rate=0.4):
     ids = {}
     for lab in labels:
         if rng.random() < explicit:
-            ids[lab] = rng.choice([1001, 1002, "id-%s" % lab, "ü-%s" % lab])
+            # one explicit id per data object (the same id for different data objects is a user error)
+            ids[lab] = rng.choice([2000 + len(ids), "id-%s" % lab, "ü-%s" % lab])
 
     def deco(s):
         out = []
